@@ -21,7 +21,8 @@ def isEligible (pol : Policy) (now : Nat) (r : Row) : Bool := (candOf pol now r)
 
 theorem eligible_id {pol : Policy} {now : Nat} {r : Row} {c : Cand} (h : eligible pol now r = .ok c) :
     c.id = r.id ∧ c.stance = r.stance ∧ c.opposes = false ∧ c.evidence = r.evidence := by
-  unfold eligible at h
+  rw [eligible_eq_spec] at h
+  unfold eligibleSpec at h
   repeat' split at h
   all_goals cases h
   all_goals simp
